@@ -37,7 +37,10 @@ pub enum Item { Text(String), Comp(Comp), /// a line break directly between two 
     SoftBreak }
 
 #[derive(Clone, Debug)]
-pub enum Block { Step(Vec<Item>), Text(Vec<String>), Meta(String, String), Section(Option<String>) }
+pub enum Block { Step(Vec<Item>), Text(Vec<String>), Meta(String, String), Section(Option<String>),
+    /// `>> [mode]: components`, a block that only lists components (one per line), `>> [mode]: all` (extended dialect):
+    /// the components are defined but no step is added and step numbering is not affected
+    Components(Vec<Comp>) }
 
 #[derive(Clone, Debug)]
 pub struct WfRecipe { pub front: Option<Vec<(String, String)>>, pub blocks: Vec<Block>, pub extended: bool }
@@ -92,6 +95,20 @@ pub fn generate(rng: &mut Rng, extended: bool) -> WfRecipe {
                 section_has_content = false;
                 steps_in_section = 0;
                 blocks.push(Block::Section(name));
+            }
+            3 if extended && rng.chance(1, 2) => {
+                // names from pools of their own: nothing else defines or references them
+                let n = 1 + rng.below(3);
+                let mut cs = Vec::new();
+                for _ in 0..n {
+                    if rng.chance(1, 4) {
+                        cs.push(Comp { kind: Kind::Cookware, name: rng.pick_str(&["tray", "cake tin"]).to_string(), alias: None, mods: 0, inter: None, qty: None, note: None, braces: true });
+                    } else {
+                        let qty = if rng.chance(1, 2) { Some(Qty { val: Val::Num(num(rng, extended)), unit: if rng.chance(1, 2) { Some(rng.pick_str(UNITS).to_string()) } else { None }, lock: false }) } else { None };
+                        cs.push(Comp { kind: Kind::Ingredient, name: rng.pick_str(&["stock", "dry yeast", "Öl"]).to_string(), alias: None, mods: 0, inter: None, qty, note: None, braces: true });
+                    }
+                }
+                blocks.push(Block::Components(cs));
             }
             2 => { blocks.push(Block::Text(vec![rng.pick_str(&["A note for the cook.", "Serve warm", "Étape finale"]).to_string()])); section_has_content = true; }
             _ => {
@@ -285,6 +302,8 @@ pub fn spell(r: &WfRecipe, st: &Style) -> String {
     let mut rng = Rng::new(st.seed ^ 0x57);
     let mut out = String::new();
     if let Some(fm) = &r.front {
+        // blank lines (also lines of blanks only, CRLF ones in the crlf style) may precede the front matter
+        if st.spaces { out.push_str(rng.pick_str(&["", "", "\n", "  \n", "\t\n\n", " \n"])); }
         out.push_str("---\n");
         for (k, v) in fm { out.push_str(&format!("{k}: {v}\n")); }
         out.push_str("---\n");
@@ -299,6 +318,11 @@ pub fn spell(r: &WfRecipe, st: &Style) -> String {
             Block::Meta(k, v) => out.push_str(&format!(">>{}{k}{}:{}{v}{}", sp(&mut rng, st), sp(&mut rng, st), sp(&mut rng, st), sp(&mut rng, st))),
             Block::Section(n) => match n { Some(n) => out.push_str(&format!("={} {n} {}", if rng.chance(1, 2) { "=" } else { "" }, rng.pick_str(&["", "=", "=="]))), None => out.push_str(rng.pick_str(&["=", "==", "= ="])) },
             Block::Text(ps) => { for (i, p) in ps.iter().enumerate() { if i > 0 { out.push('\n'); } out.push_str("> "); out.push_str(p); } }
+            Block::Components(cs) => {
+                out.push_str(rng.pick_str(&[">> [mode]: components\n\n", ">> [define]: ingredients\n\n", ">>[mode]:components\n\n"]));
+                for (i, c) in cs.iter().enumerate() { if i > 0 { out.push('\n'); } out.push_str(&spell_comp(c, &mut rng, st, r.extended)); }
+                out.push_str(rng.pick_str(&["\n\n>> [mode]: all", "\n\n>> [define]: default", "\n\n>> [mode]: all"]));
+            }
             Block::Step(items) => {
                 for it in items {
                     match it {
@@ -342,8 +366,8 @@ fn r_sval(q: &Qty, is_ingredient: bool) -> String {
 
 /// the expected `r_recipe`-style rendering plus the expected diagnostics rendering
 pub fn expected(r: &WfRecipe) -> String {
-    struct EI { name: String, alias: Option<String>, qty: Option<Qty>, note: Option<String>, mods: u32, rel: String, refs: Vec<usize>, is_def: bool, refpath: Option<String> }
-    struct EC { name: String, qty: Option<Qty>, note: Option<String>, mods: u32, target: Option<usize>, refs: Vec<usize> }
+    struct EI { name: String, alias: Option<String>, qty: Option<Qty>, note: Option<String>, mods: u32, rel: String, refs: Vec<usize>, is_def: bool, refpath: Option<String>, in_step: bool }
+    struct EC { name: String, qty: Option<Qty>, note: Option<String>, mods: u32, target: Option<usize>, refs: Vec<usize>, in_step: bool }
     let mut ings: Vec<EI> = Vec::new();
     let mut cws: Vec<EC> = Vec::new();
     let mut tms: Vec<String> = Vec::new();
@@ -364,6 +388,14 @@ pub fn expected(r: &WfRecipe) -> String {
                 cur = (n.clone(), Vec::new()); cur_steps.clear(); step_no = 1;
             }
             Block::Text(ps) => { cur.1.push(format!("TEXT({})", cps(&ps.join("")))); }
+            Block::Components(cs) => {
+                for c in cs {
+                    match c.kind {
+                        Kind::Cookware => cws.push(EC { name: c.name.clone(), qty: c.qty.clone(), note: None, mods: 0, target: None, refs: vec![], in_step: false }),
+                        _ => ings.push(EI { name: c.name.clone(), alias: None, qty: c.qty.clone(), note: None, mods: 0, rel: String::new(), refs: vec![], is_def: true, refpath: None, in_step: false }),
+                    }
+                }
+            }
             Block::Step(items) => {
                 let mut its: Vec<String> = Vec::new();
                 for it in items {
@@ -378,7 +410,7 @@ pub fn expected(r: &WfRecipe) -> String {
                             }
                             Kind::Cookware => {
                                 let idx = cws.len();
-                                let mut e = EC { name: c.name.clone(), qty: c.qty.clone(), note: c.note.clone(), mods: c.mods, target: None, refs: vec![] };
+                                let mut e = EC { name: c.name.clone(), qty: c.qty.clone(), note: c.note.clone(), mods: c.mods, target: None, refs: vec![], in_step: true };
                                 if c.mods & M_REF != 0 {
                                     let t = (0..cws.len()).rev().find(|&i| cws[i].mods & M_REF == 0 && fold(&cws[i].name) == fold(&c.name)).expect("cookware ref target");
                                     e.mods |= cws[t].mods & (M_HIDDEN | M_OPT);
@@ -390,7 +422,7 @@ pub fn expected(r: &WfRecipe) -> String {
                             }
                             Kind::Ingredient => {
                                 let idx = ings.len();
-                                let mut e = EI { name: c.name.clone(), alias: c.alias.clone(), qty: c.qty.clone(), note: c.note.clone(), mods: c.mods, rel: String::new(), refs: vec![], is_def: true, refpath: None };
+                                let mut e = EI { name: c.name.clone(), alias: c.alias.clone(), qty: c.qty.clone(), note: c.note.clone(), mods: c.mods, rel: String::new(), refs: vec![], is_def: true, refpath: None, in_step: true };
                                 if let Some((rel, sec, val)) = c.inter {
                                     let target = if !sec {
                                         if rel { cur_steps[cur_steps.len() - val as usize] } else { cur_steps[val as usize - 1] }
@@ -419,12 +451,12 @@ pub fn expected(r: &WfRecipe) -> String {
     if cur.0.is_some() || !cur.1.is_empty() { secs.push((cur.0.clone(), cur.1.clone(), 0)); }
     let secs_s: Vec<String> = secs.iter().map(|s| format!("SECT({};{})", opt(s.0.as_ref().map(|n| cps(n))), s.1.join(","))).collect();
     let ings_s: Vec<String> = ings.iter().map(|i| {
-        let rel = if i.is_def { format!("def[{}]+>-", i.refs.iter().map(|x| x.to_string()).collect::<Vec<_>>().join(",")) } else { i.rel.clone() };
+        let rel = if i.is_def { format!("def[{}]{}>-", i.refs.iter().map(|x| x.to_string()).collect::<Vec<_>>().join(","), if i.in_step { "+" } else { "-" }) } else { i.rel.clone() };
         let q = i.qty.as_ref().map(|q| format!("{}%{}", r_sval(q, true), opt(q.unit.as_ref().map(|u| cps(u)))));
         format!("I({};{};{};{};{};{};{})", cps(&i.name), opt(i.alias.as_ref().map(|a| cps(a))), opt(q), opt(i.note.as_ref().map(|n| cps(n))), opt(i.refpath.clone()), rel, i.mods)
     }).collect();
     let cws_s: Vec<String> = cws.iter().map(|c| {
-        let rel = match c.target { Some(t) => format!("ref{t}"), None => format!("def[{}]+", c.refs.iter().map(|x| x.to_string()).collect::<Vec<_>>().join(",")) };
+        let rel = match c.target { Some(t) => format!("ref{t}"), None => format!("def[{}]{}", c.refs.iter().map(|x| x.to_string()).collect::<Vec<_>>().join(","), if c.in_step { "+" } else { "-" }) };
         format!("C({};-;{};{};{};{})", cps(&c.name), opt(c.qty.as_ref().map(|q| r_sval(q, false))), opt(c.note.as_ref().map(|n| cps(n))), rel, c.mods)
     }).collect();
     let mut s = format!("OUT sections=[{}] ingredients=[{}] cookware=[{}] timers=[{}] inline=[]", secs_s.join(" "), ings_s.join(" "), cws_s.join(" "), tms.join(" "));
